@@ -996,6 +996,18 @@ Fixpoint run_steps (p : list sstep) (missing_dir_fails : bool) (r : registry) (q
       | None => Some c
       end
   end.
+(* a step order is SAFE when on both branches of the cwd statement a removal loop has run by the time of the spawn (sc: on the
+   branch with `cwd`, sn: on the branch without); the call's own env may come before or after *)
+Fixpoint steps_safe_from (sc sn : bool) (p : list sstep) : bool :=
+  match p with
+  | [] => true                                   (* nothing is ever spawned *)
+  | SStrip :: rest => steps_safe_from true true rest
+  | SStripIfCwd :: rest => steps_safe_from true sn rest
+  | SStripIfNoCwd :: rest => steps_safe_from sc true rest
+  | SSpawn :: _ => sc && sn
+  | _ :: rest => steps_safe_from sc sn rest
+  end.
+Definition steps_safe (p : list sstep) : bool := steps_safe_from false false p.
 Definition sstep_code (s : sstep) : N :=
   match s with SCwd => 0 | SStrip => 1 | SStripIfNoCwd => 2 | SStripIfCwd => 3 | SStripCond => 4 | SOwnEnv => 5 | SSpawn => 6 end.
 Definition modelled_steps : list sstep := [SCwd; SStrip; SOwnEnv; SSpawn].
